@@ -91,10 +91,10 @@ theorem flatMap_bitsOf_length (bl : Nat) (vs : List Nat) :
     (vs.flatMap (bitsOf bl)).length = vs.length * bl := by
   induction vs with
   | nil => simp
-  | cons v vs ih => simp [List.flatMap_cons, bitsOf_length, ih, Nat.succ_mul]; omega
+  | cons v vs ih => simp [List.flatMap_cons, bitsOf_length_A, ih, Nat.succ_mul]; omega
 
 theorem packBits_covers (B : List Bool) (rest : Bytes) : B.length ≤ 8 * (packBits B ++ rest).length := by
-  rw [List.length_append, packBits_length B.length B (Nat.le_refl _)]; omega
+  rw [List.length_append, packBits_length_A B.length B (Nat.le_refl _)]; omega
 
 theorem readTaggedValues_spec (B : List Bool) (rest : Bytes) (bl : Nat) (hbl : bl ≤ 32) :
     ∀ (vs : List Nat) (k : Nat) (acc : List Nat) (more : List Bool),
@@ -108,17 +108,17 @@ theorem readTaggedValues_spec (B : List Bool) (rest : Bytes) (bl : Nat) (hbl : b
     intro k acc more hk hv hB
     have hcov := packBits_covers B rest
     have hlenB : (B.drop k).length = ((v :: vs).flatMap (bitsOf bl) ++ more).length := by rw [hB]
-    simp only [List.length_drop, List.flatMap_cons, List.length_append, bitsOf_length] at hlenB
+    simp only [List.length_drop, List.flatMap_cons, List.length_append, bitsOf_length_A] at hlenB
     have hkb : k + bl ≤ B.length := by omega
     have hval : readVal (packBits B ++ rest) k bl = v := by
       rw [readVal_packBits rest B bl k hkb, hB]
       simp only [List.flatMap_cons, List.append_assoc]
-      rw [List.take_left' (bitsOf_length bl v), valOfBits_bitsOf]
+      rw [List.take_left' (bitsOf_length_A bl v), valOfBits_bitsOf_A]
       exact Nat.mod_eq_of_lt (hv v (by simp))
     have hdrop : B.drop (k + bl) = vs.flatMap (bitsOf bl) ++ more := by
       rw [← List.drop_drop, hB]
       simp only [List.flatMap_cons, List.append_assoc]
-      rw [List.drop_left' (bitsOf_length bl v)]
+      rw [List.drop_left' (bitsOf_length_A bl v)]
     simp only [readTaggedValues, List.length_cons,
       getBits_readerAt (packBits B ++ rest) bl k hbl (by omega), hval]
     rw [ih (k + bl) (v :: acc) more hkb (fun w hw => hv w (by simp [hw])) hdrop]
@@ -280,7 +280,7 @@ theorem tagged_roundtrip_aux (o : ProbOracle) (comps : Nat) (groups : List (List
         simp only [List.reverse_nil, List.nil_append, Option.some.injEq, Prod.mk.injEq, true_and]
         have : (readerAt (packBits B ++ rest) B.length).bytesDecoded = (packBits B).length := by
           simp only [readerAt, BitReader.bytesDecoded,
-            packBits_length B.length B (Nat.le_refl _)]
+            packBits_length_A B.length B (Nat.le_refl _)]
         rw [this, List.drop_left' rfl]
 
 /-! ### `EncodeSymbols` / `DecodeSymbols` -/
